@@ -14,6 +14,7 @@ import os
 import shutil
 import threading
 import time
+import re
 from pathlib import Path
 
 from sim import env, fs as simfs, genmod, kernel, nodeworld
@@ -25,6 +26,7 @@ from frappy.logging import LogfileHandler
 LEVELS = {'debug': 10, 'comlog': 15, 'info': 20, 'warning': 30, 'error': 40, 'off': 99}
 NAMES = {v: k for k, v in LEVELS.items()}
 DAY = 86400
+OWN = re.compile(r"^node-\d{4}-\d{2}-\d{2}\.log$")     # files of the handler (anything else in the directory is foreign)
 
 
 class C20(Check):
@@ -47,7 +49,7 @@ class C20(Check):
                    'rotation: files of the handler are <rootname>-YYYY-MM-DD.log; entries with other names are foreign '
                    'and must survive']
     PROBES = ('c20.routing-mode', 'c20.rotation-mode', 'c20.record-delivered', 'c20.record-filtered', 'c20.idn-reset',
-              'c20.invalid-level', 'c20.rollover', 'fs.error', 'clock.jump')
+              'c20.invalid-level', 'c20.rollover', 'fs.error', 'clock.jump', 'c20.foreign-symlink')
 
     def gen_case(self, rng, tier):
         mode = rng.choice(['routing', 'routing', 'rotation'])
@@ -82,8 +84,11 @@ class C20(Check):
         else:
             shape['max_days'] = rng.choice([0, 1, 2, 3, 5])
             shape['existing_days'] = sorted(rng.sample(range(1, 30), rng.randrange(0, 8)))   # days before the epoch
+            # (names ending in @: symbolic links - an operator's 'latest' link, a link left by a log shipping tool -
+            # whose names look like files of the handler)
             shape['foreign'] = rng.sample(['notes.txt', 'zzz.log', 'aaa.log', 'frappy2-2023-01-01.log', 'subdir/',
-                                           'node-2023-11-01.log.bak'], rng.randrange(0, 4))
+                                           'node-2023-11-01.log.bak', 'node-latest.log@', 'node-0-archive.log@'],
+                                          rng.randrange(0, 4))
             for _ in range(rng.randrange(1, 9)):
                 ops.append({'jump_days': rng.choice([0, 0, 1, 1, 1, 2, 4]), 'jump_secs': rng.choice([0, 10, 3600, 86399]),
                             'nrec': rng.randrange(1, 4),
@@ -230,6 +235,12 @@ class C20(Check):
         for f in shape['foreign']:
             if f.endswith('/'):
                 (logdir / f.rstrip('/')).mkdir()
+            elif f.endswith('@'):
+                sim.count('c20.foreign-symlink')
+                target = fname(t0 - shape['existing_days'][0] * DAY) if shape['existing_days'] else 'linked.txt'
+                if not (logdir / target).exists():
+                    (logdir / target).write_text('linked\n')
+                os.symlink(target, logdir / f[:-1])
             else:
                 (logdir / f).write_text('foreign\n')
         handler = LogfileHandler(str(root), 'node', max_days=shape['max_days'])
@@ -393,8 +404,8 @@ class C20(Check):
             if not any(s['remove_failed'] for s in ctx['steps']) and 'subdir' not in str(shape['foreign']):
                 res.append(Violation('C20.rollover-raised', 'emit', f'logging raised inside the handler: {msg}'))
         for k, s in enumerate(ctx['steps']):
-            own_before = [f for f in s['before'] if f.startswith('node-') and f.endswith('.log')]
-            own_after = [f for f in s['after'] if f.startswith('node-') and f.endswith('.log')]
+            own_before = [f for f in s['before'] if OWN.match(f)]
+            own_after = [f for f in s['after'] if OWN.match(f)]
             foreign_before = [f for f in s['before'] if f not in own_before and f != 'current']
             foreign_after = [f for f in s['after'] if f not in own_after and f != 'current']
             if s['today'] not in own_after:
